@@ -100,7 +100,7 @@ CLAIMED = {
 # extensions made after the seeding rounds (appended to the level text of each check)
 ADDED = {
  "C01": "Decoy group order before every nonce derivation; the key also handed over as one list object overwritten in place between verify calls.",
- "C02": "Decoy generators (other base point, same point on another curve); ECDH peer key as list / Point / Point of the other production curve.",
+ "C02": "Decoy generators (other base point, same point on another curve); ECDH peer key as list / Point / Point of the other production curve. A separately built point at infinity as operand; a user-constructed 384-bit-order generator (NIST P-384) in the scalar-multiplication grid.",
  "C03": "L4 also: signatures with R or S >= n (Core's CheckLowS overflow rule), hash types with undefined bits, lax-DER signatures of 84 / 272 bytes embedded in the script code (FindAndDelete through PUSHDATA1 / PUSHDATA2).",
  "C04": "Fork-id coins refuse at BOTH entry points; Bitcoin Cash closures keep signature pushes that carry the fork-id bit (no FindAndDelete); signature blobs of 76 and 256 bytes.",
  "C05": "Histories also: an empty input set, mutate-then-re-sign, two parties each holding one input's keys in both orders, input-index collections in seven container shapes (incl. one-shot iterators).",
@@ -108,14 +108,14 @@ ADDED = {
  "C07": "The coinbase outpoint is one deviation (meets every witness mixture); scripts of 131072 bytes; spent flag re-assigned as a bool; Mode S driver C07.history (edits by assignment / set_witness / in place, fresh-object leak check).",
  "C08": "Depth-2 aliasing step on every round trip: the caller edits the info dictionaries it was handed, then asks again.",
  "C09": "Text depths {0,1,127,128,255}; the depth-256 child of every depth-255 node must refuse its text form.",
- "C10": "SEC blob handed over in a bytearray the caller overwrites afterwards (key must keep its own copy); WIF on a parseable_str shared between networks.",
+ "C10": "SEC blob handed over in a bytearray the caller overwrites afterwards (key must keep its own copy); WIF on a parseable_str shared between networks. public_copy() facts of every key; checksummed WIF payloads of the wrong length or with a wrong marker are refused.",
  "C11": "Excluded characters include lone surrogates and an astral character (also inserted into valid Base58Check text); checksum-leading-zero payload family; same text offered to a Groestlcoin parser first.",
- "C12": "compile_push_data_list with tuple / iterator / generator arguments.",
+ "C12": "compile_push_data_list with tuple / iterator / generator arguments. Non-minimal pushes are refused by both decoder routes (streamer and ScriptTools.get_opcodes).",
  "C13": "Mode S driver C13.history (fee after each replacement of the spent-output records, incl. one stray record); the caller reorders / empties the lists it passed to create_tx.",
  "C14": "Proof corruptions also: one more flag byte 0x01/0x80/0xff and repeated-last-node forgeries (CVE-2012-2459 shape) for every odd level x every match set; merkle() must leave the caller's list alone; per-coin header classes.",
  "C15": "A decoy BlockChain per unit must neither affect nor be affected; second driver C15.preload (preload_locked_blocks then deliveries); 32-byte ids configuration.",
  "C16": "Merkleblock proofs for every subset up to n = 9 (11); depth-2 aliasing step: the caller edits the parsed dictionary, the same bytes are parsed again; networks created in a fixed order with class checks.",
- "C17": "Verifiers also: the key's address on another network and the P2SH address built from the key's hash (both must fail); r alphabet includes the least x > n with a curve point; form feed / unicode separators / trailing spaces in armoured messages.",
+ "C17": "Verifiers also: the key's address on another network and the P2SH address built from the key's hash (both must fail); r alphabet includes the least x > n with a curve point; form feed / unicode separators / trailing spaces in armoured messages. CRLF messages with splitlines-only separators; every armour re-parsed as a DOS text file.",
  "C18": "Extended keys with depth byte 0x7f/0x80/0xff; depth-2 aliasing step on Contract.info(); identities carry a network mark; lone-surrogate strings.",
  "C19": "Every message also as a bytearray (same digest, buffer unchanged) in both configurations; Bloom decoy filter; two-byte-prefix address item.",
  "C20": "Size boundary also with 252/253 inputs or outputs, 300+300, 65535/65536 outputs; Mode S driver C20.history; BTC decoy check before another coin's check.",
